@@ -682,6 +682,16 @@ def run(spec, ctx):
         # object per evaluation; the per-node class hands out a new mapping per node by design)
         MON.violations.clear()
         MON.reset()
+        # constant sub-expressions that are twins under Python's == (1 / 1.0 / true, 0 / 0.0 / false, "1" no) next to each
+        # other in one filter: a cache keyed by equality of the expressions would give both the same answer
+        for a, b in ((1, "true"), ("true", 1), (0, "false"), ("false", 0.0), (1.0, "true"), (1, 1.0), ("null", 0), ("'1'", 1)):
+            for tmpl in ("$.items[?(@.kind == 'a' && $.flag == %s) || (@.kind == 'b' && $.flag == %s)]", "$.items[?(@.kind == 'a' && _.k == %s) || (@.kind == 'b' && _.k == %s)]",
+                         "$.items[?(@.kind == 'a' && count($.flags[*]) == %s) || (@.kind == 'b' && count($.flags[*]) < %s)]", "$.items[?($.flag != %s && @.kind == 'a') || ($.flag != %s && @.kind == 'b')]",
+                         "$.items[?@.kind == 'a' && $.pair == [%s] || @.kind == 'b' && $.pair == [%s]]"):
+                text = tmpl % (a, b)
+                hist = [[{"flag": f, "pair": [f], "flags": [1] * n, "items": [{"kind": "a"}, {"kind": "b"}, {"kind": "c"}]}, {"k": f}] for f, n in ((True, 1), (1, 0), (0, 1), (False, 0), (1.0, 2), (None, 1), ("1", 1))]
+                run_history(ctx, text, hist, 14, {"text": text, "hist": hist, "kind": "history", "reps": 14})
+                ctx.count("twin_constant_subexpression_cases")
         for _ in range(spec["n"]):
             text, hist = gen_case(r)
             run_history(ctx, text, hist, spec["reps"], {"text": text, "hist": hist, "kind": "history", "reps": spec["reps"]})
